@@ -169,6 +169,15 @@ func (n *Node) Restart() {
 	n.open()
 }
 
+// RestartFresh stops the node, deletes its consensus cache directory and reopens the ledger: the ledger is warm,
+// every election and statistic has to be recomputed on demand (an operator deleting the cache, or a first start
+// of a newer version on an existing ledger).
+func (n *Node) RestartFresh() {
+	n.Stop()
+	_ = os.RemoveAll(n.Dir + "-consensus")
+	n.open()
+}
+
 // Destroy stops the node and removes its directory.
 func (n *Node) Destroy() {
 	n.Stop()
